@@ -541,4 +541,272 @@ theorem afterTraverse_fr {g gv : Graph} {c : Nat} {M : Option Int} {sh : Shape} 
             obtain ⟨x, s2⟩ := r
             exact h1.trans (fr_pickChild hc hgv hwf s1 next w x s2 hp)
 
+/-! ## counting on the scan path -/
+
+/-- an owner of a copy that has results -/
+theorem BInv.owner {g : Graph} {c : Nat} {M : Option Int} {sh : Shape} {s : State} {L : Nat → Prop}
+    (b : BInv g c M sh s L) (j : Nat) (hj : j < g.nodes.length) (hjc : (g.node j).cls = c) (hne : (s.nd j).results ≠ []) :
+    ∃ u, u < g.workers.length ∧ g.idIn u j = true := by
+  rcases b.p1 j hj hjc hne with ⟨u, tag, hu, ⟨ph, dir, uid, wait, hpc⟩, _⟩ | ⟨u, hu, hid, _⟩
+  · have hul : u < g.workers.length := by rw [← b.workersLen]; exact lt_of_isTest s u (by rw [hpc]; rfl)
+    exact ⟨u, hul, (b.infl u hu j ph dir uid tag wait hpc hjc).2.2.1⟩
+  · exact ⟨u, hu, hid⟩
+
+/-- two observers in one scope count the same results -/
+theorem scopedLen_scope_eq {g : Graph} {c : Nat} {M : Option Int} {sh : Shape} {s : State} {L : Nat → Prop}
+    (hc : BClass g c M sh) (b : BInv g c M sh s L) (v w : Nat) (hv : v < g.workers.length) (hw : w < g.workers.length)
+    (hvw : inScopeOf sh g v w = true) : scopedLen g s c sh v = scopedLen g s c sh w := by
+  unfold scopedLen
+  apply sum_map_congr
+  intro j hj
+  obtain ⟨hj1, hj2⟩ := (mem_classNodes g c j).mp hj
+  by_cases hne : (s.nd j).results = []
+  · simp [hne]
+  · obtain ⟨u, hu, hid⟩ := b.owner j hj1 hj2 hne
+    rw [hc.scope j hj1 hj2 u v hu hv hid, hc.scope j hj1 hj2 u w hu hw hid, inScopeOf_trans sh g v w u hvw]
+
+/-- While nobody of `w`'s scope has finished the class, the results an observer `v` that sees `w`'s copy `n` counts
+are placeholders of executions in flight of distinct workers of `w`'s scope, each holding the `started` mark of
+its copy: they number at most `scopedCount`. (`s0`: the state in which `w` asked `is_occupied`; `s1`: with `w`'s
+own mark on `n`.) -/
+theorem scan_count {g : Graph} {c : Nat} {M : Option Int} {sh : Shape} (hc : BClass g c M sh) {s0 s1 : State} {w n v : Nat}
+    (hw : w < g.workers.length) (hv : v < g.workers.length) (b : BInv g c M sh s1 (Ex w))
+    (hn : n < g.nodes.length) (hnc : (g.node n).cls = c) (hid : g.idIn w n = true)
+    (hmarks : ∀ j, j ≠ n → (s1.nd j).started = (s0.nd j).started)
+    (hnf : ¬ FinIn g s1 c sh w) (hseen : seen g sh v n = true) :
+    scopedLen g s1 c sh v ≤ scopedCount g s0 n w := by
+  have hvw : inScopeOf sh g v w = true := by rw [← hc.scope n hn hnc w v hw hv hid]; exact hseen
+  have hnode := hc.node n hn hnc
+  -- every counted copy is being executed by a worker of the scope that holds its mark
+  have hA : ∀ j ∈ g.classNodes c, (if seen g sh v j then (s1.nd j).results.length else 0) ≠ 0 →
+      ∃ u, (∃ ph dir uid tag wait, (s1.wd u).pc = .test j ph dir uid tag wait) ∧ (s1.nd j).results.length = 1 ∧
+        (s0.nd j).started = some u ∧ inScopeOf sh g w u = true := by
+    intro j hj hne
+    obtain ⟨hj1, hj2⟩ := (mem_classNodes g c j).mp hj
+    have hs : seen g sh v j = true := by
+      by_cases h : seen g sh v j = true
+      · exact h
+      · simp [h] at hne
+    have hr : (s1.nd j).results ≠ [] := by
+      intro h; simp [h] at hne
+    rcases b.p1 j hj1 hj2 hr with ⟨u, tag, hu, ⟨ph, dir, uid, wait, hpc⟩, hres⟩ | ⟨u, hu, hidu, hf⟩
+    · obtain ⟨_, _, hidu, hst⟩ := b.infl u hu j ph dir uid tag wait hpc hj2
+      have hul : u < g.workers.length := by rw [← b.workersLen]; exact lt_of_isTest s1 u (by rw [hpc]; rfl)
+      have hjn : j ≠ n := by
+        intro e; subst e
+        exact hu (hc.uniq j hj1 hj2 u w hul hw hidu hid)
+      refine ⟨u, ⟨ph, dir, uid, tag, wait, hpc⟩, by rw [hres]; rfl, by rw [← hmarks j hjn]; exact hst, ?_⟩
+      rw [← inScopeOf_trans sh g v w u hvw, ← hc.scope j hj1 hj2 u v hul hv hidu]; exact hs
+    · exfalso
+      apply hnf
+      obtain ⟨j', u', h1, h2, h3, h4⟩ := hf
+      refine ⟨j', u', h1, h2, h3, ?_⟩
+      have hwu : inScopeOf sh g w u = true := by
+        rw [← inScopeOf_trans sh g v w u hvw, ← hc.scope j hj1 hj2 u v hu hv hidu]; exact hs
+      rw [inScopeOf_trans sh g w u u' hwu]; exact h4
+  unfold scopedLen
+  refine Nat.le_trans (sum_le_count _ _ (fun j hj => ?_)) ?_
+  · by_cases h0 : (if seen g sh v j then (s1.nd j).results.length else 0) = 0
+    · omega
+    · obtain ⟨u, _, h1, _⟩ := hA j hj h0
+      split <;> omega
+  · -- the counted copies, mapped to the holders of their marks
+    let A := (g.classNodes c).filter (fun j => (if seen g sh v j then (s1.nd j).results.length else 0) != 0)
+    have hAmem : ∀ j ∈ A, j ∈ g.classNodes c ∧ (if seen g sh v j then (s1.nd j).results.length else 0) ≠ 0 := by
+      intro j hj
+      have := List.mem_filter.mp hj
+      exact ⟨this.1, by simpa using this.2⟩
+    have hnd : (A.map (fun j => ((s0.nd j).started).getD 0)).Nodup := by
+      apply nodup_map_on
+      · exact List.Nodup.sublist List.filter_sublist (nodup_classNodes g c)
+      · intro x hx y hy hxy
+        obtain ⟨ux, ⟨ph, dir, uid, tag, wait, hpx⟩, _, hsx, _⟩ := hA x (hAmem x hx).1 (hAmem x hx).2
+        obtain ⟨uy, ⟨ph', dir', uid', tag', wait', hpy⟩, _, hsy, _⟩ := hA y (hAmem y hy).1 (hAmem y hy).2
+        simp only [hsx, hsy, Option.getD_some] at hxy
+        subst hxy
+        rw [hpx] at hpy
+        cases hpy; rfl
+    have hsub : ∀ u ∈ A.map (fun j => ((s0.nd j).started).getD 0),
+        u ∈ (sharedStarted g s0 n).filter (inScopeOf (g.node n).shape g w) := by
+      intro u hu
+      obtain ⟨j, hj, hju⟩ := List.mem_map.mp hu
+      obtain ⟨u', _, _, hs, hsc⟩ := hA j (hAmem j hj).1 (hAmem j hj).2
+      rw [hs] at hju
+      simp only [Option.getD_some] at hju
+      subst hju
+      obtain ⟨hj1, hj2⟩ := (mem_classNodes g c j).mp (hAmem j hj).1
+      refine List.mem_filter.mpr ⟨(mem_sharedStarted g s0 n u').mpr ⟨j, ?_, hs⟩, by rw [hnode.2.2.2.2]; exact hsc⟩
+      exact (mem_copies g n j hn hnode.1).mpr ⟨hj1, by rw [hj2, hnc]⟩
+    have := length_le_of_nodup_subset hnd hsub
+    rw [List.length_map] at this
+    exact this
+
+/-! ## the guarded start of a test of the class -/
+
+theorem sharedFilteredResults_sameNodes {gv g : Graph} (h : SameNodes gv g) (s : State) (n : Nat) (sw : Option Nat) :
+    sharedFilteredResults gv s n sw = sharedFilteredResults g s n sw := by
+  unfold sharedFilteredResults
+  simp only [sharedResults_sameNodes h, h.shape', h.worker]
+
+theorem FinIn.of_finished_eq {g : Graph} {c : Nat} {sh : Shape} {s s' : State} {u : Nat}
+    (h : ∀ j, (s'.nd j).finished = (s.nd j).finished) (hf : FinIn g s c sh u) : FinIn g s' c sh u := by
+  obtain ⟨j, u', h1, h2, h3, h4⟩ := hf
+  exact ⟨j, u', h1, h2, by rw [h j]; exact h3, h4⟩
+
+theorem scopedLen_start {g : Graph} {c : Nat} {sh : Shape} {s s' : State} {n : Nat} (hn : n < g.nodes.length)
+    (hnc : (g.node n).cls = c) (h1 : (s'.nd n).results.length = (s.nd n).results.length + 1)
+    (h2 : ∀ j, j ≠ n → (s'.nd j).results = (s.nd j).results) (v : Nat) :
+    scopedLen g s' c sh v = scopedLen g s c sh v + (if seen g sh v n then 1 else 0) := by
+  unfold scopedLen
+  by_cases hs : seen g sh v n = true
+  · simp only [hs, if_true]
+    apply sum_map_succ _ (nodup_classNodes g c) n ((mem_classNodes g c n).mpr ⟨hn, hnc⟩)
+    · simp only [hs, if_true]; exact h1
+    · intro j _ hj; rw [h2 j hj]
+  · simp only [hs, Bool.false_eq_true, if_false, Nat.add_zero]
+    apply sum_map_congr
+    intro j _
+    by_cases hj : j = n
+    · subst hj; simp [hs]
+    · rw [h2 j hj]
+
+/-- THE step: worker `w` has found its copy `n` of the class not occupied (state `s0`), marked it, pulled the
+locations, decided to run, and starts the test.  The invariant holds afterwards, for all workers. -/
+theorem enter_start {g gv : Graph} {c : Nat} {M : Option Int} {sh : Shape} (hc : BClass g c M sh) (hgv : SameNodes gv g)
+    {s0 s1 : State} {w n : Nat} {evs : List Event} (dir : Dir) (hw : w < g.workers.length)
+    (b0 : BInv g c M sh s0 (Ex w)) (hn : n < g.nodes.length) (hnc : (g.node n).cls = c) (hid : g.idIn w n = true)
+    (hocc : isOccupied gv s0 n w = false)
+    (hdec : runDecision gv (pullLocations gv (s0.setNd n (fun d => { d with started := some w })) n) n w = .ok (true, s1, evs)) :
+    BInv g c M sh (startTest gv s1 n w .plain dir).1 All := by
+  have hnode := hc.node n hn hnc
+  have hrel : (g.node n).cls = c → g.idIn w n = true := fun _ => hid
+  -- the silent prefix
+  have fr1 : Fr g c w s0 s1 :=
+    ((fr_mark g c w s0 n (some w) hrel).trans (fr_pullLocations g c w gv _ n)).trans (fr_runDecision g c w gv _ n w true s1 evs hdec)
+  have b1 : BInv g c M sh s1 (Ex w) := b0.fr hc hw fr1
+  have hns0 : n < s0.nodes.length := by rw [b0.nodesLen]; exact hn
+  -- node records of `s1` against `s0`
+  have hnd1 : ∀ {α} (P : NodeD → α), (∀ d, P { d with rerunDisabled := true } = P d) → ∀ j,
+      P (s1.nd j) = P ((pullLocations gv (s0.setNd n (fun d => { d with started := some w })) n).nd j) := by
+    intro α P hP j
+    rcases runDecision_state gv _ n w true s1 evs hdec with h | h
+    · rw [h]
+    · rw [h]; exact nd_disableRerun_proj P hP _ n j
+  have hst1 : ∀ j, (s1.nd j).started = ((s0.setNd n (fun d => { d with started := some w })).nd j).started := by
+    intro j; rw [hnd1 (·.started) (fun _ => rfl) j, started_pullLocations]
+  have hstn : (s1.nd n).started = some w := by rw [hst1 n, nd_setNd_eq s0 n _ hns0]
+  have hsto : ∀ j, j ≠ n → (s1.nd j).started = (s0.nd j).started := by
+    intro j hj; rw [hst1 j, nd_setNd_ne s0 n j _ hj]
+  -- the decision
+  have hsets : (gv.node n).sets.isEmpty = false := by rw [hgv.sets]; exact hnode.2.2.1
+  have hdecide := runDecision_true_stateful gv _ n w s1 evs hsets hdec
+  -- the state after the start
+  have hns1 : n < s1.nodes.length := by rw [b1.nodesLen]; exact hn
+  have hws1 : w < s1.workers.length := by rw [b1.workersLen]; exact hw
+  have hfst := startTest_nonpre_fst gv s1 n w .plain dir (by decide)
+  have hndn : ((startTest gv s1 n w .plain dir).1.nd n) =
+      { s1.nd n with results := (s1.nd n).results ++ [phOf (gv.node n).name s1.nextTag] } := by
+    rw [hfst, nd_setWd]
+    exact nd_setNd_eq ({ s1 with nextTag := s1.nextTag + 1 }) n _ hns1
+  have hndo : ∀ j, j ≠ n → (startTest gv s1 n w .plain dir).1.nd j = s1.nd j := by
+    intro j hj
+    rw [hfst, nd_setWd]
+    exact nd_setNd_ne ({ s1 with nextTag := s1.nextTag + 1 }) n j _ hj
+  have hwdo : ∀ v, v ≠ w → (startTest gv s1 n w .plain dir).1.wd v = s1.wd v :=
+    fun v hv => startTest_wd_ne gv s1 n w .plain dir v hv
+  have hwdw : ((startTest gv s1 n w .plain dir).1.wd w) =
+      { s1.wd w with pc := .test n .plain dir (uidOf (gv.node n).pfx (sharedResults gv s1 n).length) s1.nextTag 0 } := by
+    rw [hfst]
+    exact wd_setWd_eq _ w _ (by exact hws1)
+  have hproj : ∀ {α} (P : NodeD → α), (∀ d r, P { d with results := r } = P d) → ∀ j,
+      P ((startTest gv s1 n w .plain dir).1.nd j) = P (s1.nd j) := by
+    intro α P hP j
+    by_cases hj : j = n
+    · subst hj; rw [hndn]; exact hP _ _
+    · rw [hndo j hj]
+  have hfin : ∀ j, ((startTest gv s1 n w .plain dir).1.nd j).finished = (s1.nd j).finished :=
+    hproj (·.finished) (fun _ _ => rfl)
+  have hbump : ∀ j, ((startTest gv s1 n w .plain dir).1.nd j).bump = (s1.nd j).bump := hproj (·.bump) (fun _ _ => rfl)
+  have hsta : ∀ j, ((startTest gv s1 n w .plain dir).1.nd j).started = (s1.nd j).started :=
+    hproj (·.started) (fun _ _ => rfl)
+  have hlim : classLimit g s0 c ≤ classLimit g (startTest gv s1 n w .plain dir).1 c :=
+    classLimit_mono g _ _ c (fun i => by rw [hbump]; exact fr1.bump i)
+  refine ⟨?_, ?_, fun v => ?_, fun j u hj hjc h => ?_, fun u _ n' ph dir' uid tag wait hpc hn' => ?_,
+    fun j hj hjc r hr => ?_, fun j hj hjc hne => ?_, fun v hv => ?_⟩
+  · rw [hfst]; simp only [State.setWd, State.setNd, List.length_modify]; exact b1.nodesLen
+  · rw [hfst]; simp only [State.setWd, State.setNd, List.length_modify]; exact b1.workersLen
+  · unfold PathC
+    by_cases hvw : v = w
+    · subst hvw; rw [hwdw]; exact b1.path v
+    · rw [hwdo v hvw]; exact b1.path v
+  · rw [hfin] at h; exact b1.finOwn j u hj hjc h
+  · by_cases huw : u = w
+    · subst huw
+      rw [hwdw] at hpc
+      cases hpc
+      exact ⟨hn, rfl, hid, by rw [hsta]; exact hstn⟩
+    · rw [hwdo u huw] at hpc
+      obtain ⟨h1, h2, h3, h4⟩ := b1.infl u huw n' ph dir' uid tag wait hpc hn'
+      exact ⟨h1, h2, h3, by rw [hsta]; exact h4⟩
+  · by_cases hjn : j = n
+    · subst hjn
+      rw [hndn] at hr
+      rcases List.mem_append.mp hr with hr | hr
+      · exact b1.resOwn j hj hjc r hr
+      · rw [List.mem_singleton.mp hr]; exact hgv.name j
+    · rw [hndo j hjn] at hr; exact b1.resOwn j hj hjc r hr
+  · by_cases hjn : j = n
+    · subst hjn
+      by_cases hres : (s1.nd j).results = []
+      · left
+        refine ⟨w, s1.nextTag, trivial, ⟨.plain, dir, _, 0, by rw [hwdw]⟩, ?_⟩
+        rw [hndn, hres, hgv.name]; rfl
+      · right
+        rcases b1.p1 j hj hjc hres with ⟨u, tag, hu, ⟨ph, dir', uid, wait, hpc⟩, _⟩ | ⟨u, hu, hidu, hf⟩
+        · exfalso
+          have hul : u < g.workers.length := by rw [← b1.workersLen]; exact lt_of_isTest s1 u (by rw [hpc]; rfl)
+          exact hu (hc.uniq j hj hjc u w hul hw (b1.infl u hu j ph dir' uid tag wait hpc hjc).2.2.1 hid)
+        · exact ⟨u, hu, hidu, hf.of_finished_eq hfin⟩
+    · rw [hndo j hjn] at hne ⊢
+      rcases b1.p1 j hj hjc hne with ⟨u, tag, hu, ⟨ph, dir', uid, wait, hpc⟩, hres⟩ | ⟨u, hu, hidu, hf⟩
+      · exact Or.inl ⟨u, tag, trivial, ⟨ph, dir', uid, wait, by rw [hwdo u hu]; exact hpc⟩, hres⟩
+      · exact Or.inr ⟨u, hu, hidu, hf.of_finished_eq hfin⟩
+  · -- the budget
+    have hlen : ((startTest gv s1 n w .plain dir).1.nd n).results.length = (s1.nd n).results.length + 1 := by
+      rw [hndn]; simp
+    rw [scopedLen_start hn hnc hlen (fun j hj => by rw [hndo j hj]) v]
+    have hb1 := b1.budget v hv
+    have hlim1 : classLimit g s1 c ≤ classLimit g (startTest gv s1 n w .plain dir).1 c :=
+      classLimit_mono g _ _ c (fun i => by rw [hbump]; exact Nat.le_refl _)
+    by_cases hseen : seen g sh v n = true
+    · simp only [hseen, if_true]
+      rcases hdecide with ⟨hnotfin, _⟩ | ⟨hcount, _⟩
+      · -- scan path: fewer marks in scope than the threshold
+        have hnf : ¬ FinIn g s1 c sh w := by
+          intro hf
+          have hflat : (gv.node n).flat = false := by rw [hgv.flat]; exact hnode.1
+          apply not_finIn_of_not_finished gv _ n w (by rw [hgv.len]; exact hn) hflat hnotfin
+          obtain ⟨j, u', h1, h2, h3, h4⟩ := hf
+          refine ⟨j, u', by rw [hgv.len]; exact h1, by rw [hgv.cls, hgv.cls, h2, hnc], ?_, ?_⟩
+          · rw [← hnd1 (·.finished) (fun _ => rfl) j]; exact h3
+          · rw [hgv.shape', hnode.2.2.2.2, ← (hgv.sameStatic).inScopeOf_eq] at *; exact h4
+        have h1 := scan_count hc hw hv b1 hn hnc hid hsto hnf hseen
+        have h2 := room_of_not_occupied gv s0 n w (by rw [hgv.flat]; exact hnode.1) hocc
+        rw [(hgv.sameStatic).scopedCount_eq, (hgv.sameStatic).limit_eq] at h2
+        have h3 := Nat.le_trans (limit_le_peakLimit g s0 n) (peakLimit_le_classLimit g s0 n hn)
+        rw [hnc] at h3
+        omega
+      · -- rerun rule: the results in scope number less than `max_tries`
+        have hvw : inScopeOf sh g v w = true := by rw [← hc.scope n hn hnc w v hw hv hid]; exact hseen
+        have heq := scopedLen_scope_eq hc b1 v w hv hw hvw
+        have hcr : countedResults gv s1 n w = sharedFilteredResults g s1 n (some w) := by
+          unfold countedResults scopeWorker
+          rw [hsets, hstn]
+          simp only [Bool.false_eq_true, if_false]
+          exact sharedFilteredResults_sameNodes hgv s1 n _
+        rw [hcr, sfr_length g s1 c sh n w hn hnode.1 hnc hnode.2.2.2.2 b1.resOwn, hgv.maxTries, hnode.2.2.2.1] at hcount
+        omega
+    · simp only [hseen, Bool.false_eq_true, if_false]
+      omega
+
 end I2N.Trav
